@@ -340,9 +340,26 @@ def run_cmd(case):
                 outfile = os.path.join(work, "o", tree["name"] + ".torrent")
                 argv_out = []
                 extra[os.path.join(work, "o", ".torrent")] = "probe"
-            if case.get("preexisting"):
+            if case.get("preexisting") == "hardlink":
+                # the previous output has a second name (a kept copy made with ln): only the output NAME may change
+                with open(os.path.join(work, "o", "keep-previous.torrent"), "wb") as fh:
+                    fh.write(b"d4:infod6:lengthi1e4:name1:x12:piece lengthi16384e6:pieces20:aaaaaaaaaaaaaaaaaaaaee")
+                os.link(os.path.join(work, "o", "keep-previous.torrent"), outfile)
+            elif case.get("preexisting") == "symlink":
+                # the output path is a symbolic link to a file that is not the tool's to write: a payload member
+                # (for a single-file payload: a file kept elsewhere)
+                tgt = os.path.join(root, *tree["files"][-1]["path"]) if not tree.get("single") else os.path.join(work, "else-kept.bin")
+                if tree.get("single"):
+                    with open(tgt, "wb") as fh:
+                        fh.write(b"kept elsewhere")
+                os.symlink(tgt, outfile)
+            elif case.get("preexisting"):
                 with open(outfile, "wb") as fh:
                     fh.write(b"previous content")
+            if case.get("dot_torrent"):       # somebody's file that happens to be called ".torrent" in the output directory
+                with open(os.path.join(work, "o", ".torrent"), "wb") as fh:
+                    fh.write(b"not yours")
+                extra[os.path.join(work, "o", ".torrent")] = "B"
             extra[os.path.abspath(outfile)] = "O"
             argv = list(case.get("pre", [])) + [case.get("spelling", "create"), root] + argv_out + [
                 "--meta-version", str(v), "--piece-length", str(case["P"]), "--prog", str(case.get("progress", 0))]
